@@ -107,6 +107,10 @@ ConfigsThoroughEnum ==
     \cup EnumAll(4, 2)
     \cup {Cfg("enum", 0, "AB", 0, nm, K5, <<3, 1, 0, 0, 0>>, "rich") : nm \in {"first", "builtin"}}
 ConfigsThoroughFam == Families(1 .. 255, 1 .. 254, 3 .. 255)
+\* the small set of behaviours that the C11 driver re-runs under its own instruments (spawn refusal, heap balance)
+ConfigsC11 == {Cfg("enum", 0, "A", 0, "first", <<"ok", "ok">>, <<3, 2>>, "base"),
+               Cfg("enum", 0, "AB", 0, "last", K5, <<2, 1, 0, 0, 0>>, "rich")}
+               \cup {Fam("nest", n) : n \in {21, 161, 255}} \cup {Fam("chain", n) : n \in {21, 161, 254}}
 \* the pinned mechanism (CapMod = 256): TLC must find the capacity wrap by itself
 ConfigsAsBuilt == {Fam("nest", 161), Fam("chain", 161), Cfg("reg", 0, "many", 161, "first", <<"ok">>, <<0>>, "none")}
 
